@@ -281,6 +281,11 @@ impl Report {
         if harness_fail {
             self.machinery_errors.push("harness panic outside catch_unwind (see classes)".into());
         }
+        let cf = crate::real::CONSTRUCT_FAILED.load(Ordering::Relaxed);
+        self.extra.insert("value_constructions_failed_readback".into(), json!(cf));
+        if cf > 0 {
+            eprintln!("NOTE {}: {} in-range DateTime values could not be built through from_timestamp + set_nano or did not read back through timestamp() + nano(); the cases using them were skipped here - C03 judges this", self.ctx.prop, cf);
+        }
         std::fs::create_dir_all(&self.ctx.replay_dir).ok();
         let mut classes = vec![];
         for ((op, class), (count, examples)) in &self.acc.classes {
